@@ -373,4 +373,385 @@ theorem scanPkg_records {bt : List Builtin} (F : Facts) (v2 : Bool) (fuel : Nat)
     · intro i hi
       exact mem_foldl_add _ _ _ (.inr ((List.mergeSort_perm p.imports _).symm.subset hi))
 
+
+/-! ## every declaration of a scanned package is recorded, and stays recorded -/
+
+/-- the declaration `(d, n)` of Go type `ty` (and constant value `cv`) is recorded in `u` -/
+def Recorded (F : Facts) (v2 : Bool) (u : U) (d : Decl) (n : Name) (ty : Nat) (cv : Option Str) : Prop :=
+  ∃ (o : Nat) (ob : Obj), AL.lookup n (declIdx u d) = some o ∧ u.objs[o]? = some ob ∧ ob.kind = .declarationOf ∧
+    ElemIs F v2 u ob.under ty ∧ (∀ v, cv = some v → ob.constVal = some v)
+
+/-- two entries of the declaration indices never share an object -/
+def DeclInj (u : U) : Prop :=
+  ∀ (d1 d2 : Decl) (n1 n2 : Name) (o : Nat), AL.lookup n1 (declIdx u d1) = some o → AL.lookup n2 (declIdx u d2) = some o →
+    d1 = d2 ∧ n1 = n2
+
+theorem declIdx_of_side {u u' : U} (h : Side u u') (d : Decl) : declIdx u' d = declIdx u d := by
+  cases d
+  · exact h.funcs
+  · exact h.vars
+  · exact h.consts
+
+theorem declInj_of_side {u u' : U} (h : Side u u') (hi : DeclInj u) : DeclInj u' := by
+  intro d1 d2 n1 n2 o h1 h2
+  rw [declIdx_of_side h] at h1 h2
+  exact hi d1 d2 n1 n2 o h1 h2
+
+theorem decl_found (u : U) (d : Decl) (n : Name) (o : Nat) (h : AL.lookup n (declIdx u d) = some o) : (u.decl d n).1 = u := by
+  cases d <;> (unfold U.decl; simp only [declIdx] at h; simp only [h])
+
+/-- a declaration that is not registered yet: a new object, one new entry at the front of its own index -/
+theorem decl_lists (u : U) (d : Decl) (n : Name) (hnone : AL.lookup n (declIdx u d) = none) :
+    declIdx (u.decl d n).1 d = (n, u.objs.length) :: declIdx u d ∧ ∀ d', d' ≠ d → declIdx (u.decl d n).1 d' = declIdx u d' := by
+  have hs := package_side u n.pkg
+  have hpl : (u.package n.pkg).objs.length = u.objs.length := by rw [(package_objs u n.pkg).1]
+  cases d <;> (
+    unfold U.decl
+    simp only [declIdx] at hnone
+    simp only [hnone, U.newObj, declIdx]
+    refine ⟨by rw [hpl]; first | rw [hs.funcs] | rw [hs.vars] | rw [hs.consts], fun d' hd' => ?_⟩
+    cases d' <;> first
+      | exact absurd rfl hd'
+      | exact hs.funcs
+      | exact hs.vars
+      | exact hs.consts)
+
+/-- the indices after `u.decl d n`: every entry is an old one, or the new one -/
+theorem decl_idx_cases (u : U) (d : Decl) (n : Name) (d' : Decl) (n' : Name) (o : Nat)
+    (h : AL.lookup n' (declIdx (u.decl d n).1 d') = some o) :
+    AL.lookup n' (declIdx u d') = some o ∨ (d' = d ∧ n' = n ∧ o = u.objs.length) := by
+  cases hl : AL.lookup n (declIdx u d) with
+  | some x => rw [decl_found u d n x hl] at h; exact .inl h
+  | none =>
+    obtain ⟨h1, h2⟩ := decl_lists u d n hl
+    by_cases hd : d' = d
+    · subst hd
+      rw [h1] at h
+      by_cases hn : n = n'
+      · subst hn
+        rw [lookup_cons_self] at h
+        exact .inr ⟨rfl, rfl, (Option.some.inj h).symm⟩
+      · rw [lookup_cons_ne n' n _ _ hn] at h
+        exact .inl h
+    · rw [h2 d' hd] at h; exact .inl h
+
+theorem decl_old_idx (u : U) (d : Decl) (n : Name) (d' : Decl) (n' : Name) (o : Nat)
+    (h : AL.lookup n' (declIdx u d') = some o) : AL.lookup n' (declIdx (u.decl d n).1 d') = some o := by
+  cases hl : AL.lookup n (declIdx u d) with
+  | some x => rw [decl_found u d n x hl]; exact h
+  | none =>
+    obtain ⟨h1, h2⟩ := decl_lists u d n hl
+    by_cases hd : d' = d
+    · subst hd
+      rw [h1]
+      by_cases hn : n = n'
+      · subst hn; rw [hl] at h; cases h
+      · rw [lookup_cons_ne n' n _ _ hn]; exact h
+    · rw [h2 d' hd]; exact h
+
+theorem decl_declInj {bt : List Builtin} {u : U} (d : Decl) (n : Name) (hinv : Inv bt u) (hi : DeclInj u) : DeclInj (u.decl d n).1 := by
+  intro d1 d2 n1 n2 o h1 h2
+  have hlt : ∀ (dd : Decl) (nn : Name) (x : Nat), AL.lookup nn (declIdx u dd) = some x → x < u.objs.length := by
+    intro dd nn x hx
+    obtain ⟨ob, hob, _⟩ := hinv.declOK x (declIdx_sub u dd nn x hx)
+    exact (List.getElem?_eq_some_iff.mp hob).1
+  rcases decl_idx_cases u d n d1 n1 o h1 with a1 | ⟨ed1, en1, e1⟩ <;>
+    rcases decl_idx_cases u d n d2 n2 o h2 with a2 | ⟨ed2, en2, e2⟩
+  · exact hi d1 d2 n1 n2 o a1 a2
+  · have := hlt d1 n1 o a1; omega
+  · have := hlt d2 n2 o a2; omega
+  · exact ⟨ed1.trans ed2.symm, en1.trans en2.symm⟩
+
+theorem addDecl_declInj {bt : List Builtin} (F : Facts) (v2 : Bool) (fuel : Nat) (u : U) (d : Decl) (n : Name) (ty : Nat)
+    (cv : Option Str) (u' : U) (hinv : Inv bt u) (hi : DeclInj u) (hf : addDecl bt F v2 fuel u d n ty cv = some u') : DeclInj u' := by
+  unfold addDecl at hf
+  cases hw : walk bt F v2 fuel ((u.decl d n).1.modify (u.decl d n).2 (fun ob => { ob with kind := .declarationOf })) ty none with
+  | none => simp [hw] at hf
+  | some p =>
+    obtain ⟨u3, o3⟩ := p
+    simp only [hw, Option.some.injEq] at hf
+    subst hf
+    have s3 := walk_side bt F v2 fuel _ _ _ _ _ hw
+    exact declInj_of_side ((modify_side _ _ _).trans (s3.trans (modify_side _ _ _))) (decl_declInj d n hinv hi)
+
+theorem addObj_declInj {bt : List Builtin} (F : Facts) (v2 : Bool) (fuel : Nat) (u : U) (ob : GObj) (u' : U)
+    (hinv : Inv bt u) (hi : DeclInj u) (hf : addObj bt F v2 fuel u ob = some u') : DeclInj u' := by
+  unfold addObj at hf
+  cases hk : ob.kind with
+  | typeName =>
+    simp only [hk] at hf
+    cases hw : walk bt F v2 fuel u ob.ty none with
+    | none => simp [hw] at hf
+    | some p =>
+      simp only [hw, Option.map_some, Option.some.injEq] at hf
+      subst hf
+      exact declInj_of_side (walk_side bt F v2 fuel _ _ _ _ _ hw) hi
+  | func => simp only [hk] at hf; exact addDecl_declInj F v2 fuel u _ _ _ _ u' hinv hi hf
+  | var => simp only [hk] at hf; exact addDecl_declInj F v2 fuel u _ _ _ _ u' hinv hi hf
+  | const => simp only [hk] at hf; exact addDecl_declInj F v2 fuel u _ _ _ _ u' hinv hi hf
+
+
+theorem decl_keeps (u : U) (d : Decl) (n : Name) (o : Nat) (ob : Obj) (h : u.objs[o]? = some ob) :
+    (u.decl d n).1.objs[o]? = some ob := by
+  have hp := (package_objs u n.pkg).1
+  cases d <;> (
+    unfold U.decl
+    simp only
+    split
+    · exact h
+    · simp only [U.newObj]; rw [hp]; exact getElem?_append_old _ _ _ _ h)
+
+theorem Recorded.of_step {F : Facts} {v2 : Bool} {u u' : U} {d : Decl} {n : Name} {ty : Nat} {cv : Option Str}
+    (h : Recorded F v2 u d n ty cv) (hg : Grows u u')
+    (hidx : ∀ o, AL.lookup n (declIdx u d) = some o → AL.lookup n (declIdx u' d) = some o)
+    (hobj : ∀ o ob, AL.lookup n (declIdx u d) = some o → u.objs[o]? = some ob → u'.objs[o]? = some ob) :
+    Recorded F v2 u' d n ty cv := by
+  obtain ⟨o, ob, h1, h2, h3, h4, h5⟩ := h
+  exact ⟨o, ob, hidx o h1, hobj o ob h1 h2, h3, h4.mono hg, h5⟩
+
+/-- a walk leaves every recorded declaration recorded -/
+theorem walk_keeps_recorded {bt : List Builtin} (F : Facts) (v2 : Bool) (hwf : WellFormed F v2) (fuel : Nat) (u u' : U) (g o' : Nat)
+    (un : Option Name) (hi : Inv bt u) (hd : DInv F v2 u []) (hw : walk bt F v2 fuel u g un = some (u', o'))
+    {d : Decl} {n : Name} {ty : Nat} {cv : Option Str} (h : Recorded F v2 u d n ty cv) : Recorded F v2 u' d n ty cv := by
+  have p := walk_inv bt F v2 fuel u g un u' o' hi hw
+  obtain ⟨_, fr, _, _⟩ := walk_desc bt F v2 hwf fuel u g un u' o' [] hi hd hw
+  have s := walk_side bt F v2 fuel u g un u' o' hw
+  obtain ⟨o, ob, h1, h2, h3, h4, h5⟩ := h
+  exact ⟨o, ob, by rw [declIdx_of_side s]; exact h1, fr o ob h2 (by rw [h3]; decide), h3, h4.mono p.grows, h5⟩
+
+/-- adding a declaration leaves every *other* recorded declaration recorded -/
+theorem addDecl_keeps_recorded {bt : List Builtin} (F : Facts) (v2 : Bool) (hwf : WellFormed F v2) (fuel : Nat) (u : U)
+    (d' : Decl) (n' : Name) (ty' : Nat) (cv' : Option Str) (u' : U) (h : Full bt F v2 u) (hinj : DeclInj u)
+    (hf : addDecl bt F v2 fuel u d' n' ty' cv' = some u')
+    {d : Decl} {n : Name} {ty : Nat} {cv : Option Str} (hne : ¬ (d' = d ∧ n' = n)) (hr : Recorded F v2 u d n ty cv) :
+    Recorded F v2 u' d n ty cv := by
+  have hgrow := (addDecl_inv F v2 fuel u d' n' ty' cv' u' h.1 hf).2
+  unfold addDecl at hf
+  obtain ⟨h1, g1, ob1, hob1, hk1⟩ := decl_inv (bt := bt) d' n' h.1
+  have d1 := decl_dinv (F := F) (v2 := v2) (P := []) d' n' h.1 h.2
+  have hinj1 := decl_declInj d' n' h.1 hinj
+  have hsrc : ob1.src = none := by
+    rcases decl_new u d' n' _ ob1 hob1 with hold | hnew
+    · cases hsr : ob1.src with
+      | none => rfl
+      | some g =>
+        rcases h.2.desc _ ob1 g hold hsr with hp | hd
+        · cases hp
+        · unfold Desc at hd
+          cases hn : F.node g <;> simp only [hn] at hd <;> first
+            | (have := hd.1; rw [hk1] at this; cases this)
+            | (rw [hk1] at hd; cases hd)
+            | exact hd.elim
+    · exact hnew.2.1
+  obtain ⟨h2, g2⟩ := modify_inv (o := (u.decl d' n').2) (f := fun ob => { ob with kind := .declarationOf })
+    (fun ob' hob' => ⟨rfl, fun _ => by rw [hob1] at hob'; cases hob'; exact hk1.symm, fun r hr => .inl hr⟩) h1
+  have d2 : DInv F v2 ((u.decl d' n').1.modify (u.decl d' n').2 (fun ob => { ob with kind := .declarationOf })) [] :=
+    modify_nosrc_dinv g2 (fun ob' hob' => by rw [hob1] at hob'; cases hob'; exact ⟨by simp, hsrc⟩)
+      (fun _ => ⟨rfl, rfl, rfl, fun hh => by cases hh⟩) d1
+  cases hw : walk bt F v2 fuel ((u.decl d' n').1.modify (u.decl d' n').2 (fun ob => { ob with kind := .declarationOf })) ty' none with
+  | none => simp [hw] at hf
+  | some p =>
+    obtain ⟨u3, o3⟩ := p
+    simp only [hw, Option.some.injEq] at hf
+    subst hf
+    obtain ⟨_, fr3, _, _⟩ := walk_desc bt F v2 hwf fuel _ ty' none u3 o3 [] h2 d2 hw
+    have s3 := walk_side bt F v2 fuel _ _ _ _ _ hw
+    refine hr.of_step hgrow ?_ ?_
+    · intro o ho
+      show AL.lookup n (declIdx (u3.modify _ _) d) = some o
+      rw [declIdx_of_side (modify_side u3 _ _), declIdx_of_side s3, declIdx_of_side (modify_side (u.decl d' n').1 _ _)]
+      exact decl_old_idx u d' n' d n o ho
+    · intro o ob ho hob
+      -- the declaration object of `(d', n')` is another object
+      have hne' : (u.decl d' n').2 ≠ o := by
+        intro e
+        have l1 := decl_idx u d' n'
+        have l2 := decl_old_idx u d' n' d n o ho
+        rw [e] at l1
+        exact hne (hinj1 d' d n' n o l1 l2)
+      have hk : ob.kind = .declarationOf := by
+        obtain ⟨o0, ob0, a1, a2, a3, _, _⟩ := hr
+        rw [ho] at a1; cases a1
+        rw [hob] at a2; cases a2
+        exact a3
+      have e1 : (u.decl d' n').1.objs[o]? = some ob := decl_keeps u d' n' o ob hob
+      have e2 : ((u.decl d' n').1.modify (u.decl d' n').2 (fun ob => { ob with kind := .declarationOf })).objs[o]? = some ob := by
+        rw [modify_get_ne hne']; exact e1
+      have e3 : u3.objs[o]? = some ob := fr3 o ob e2 (by rw [hk]; decide)
+      show (u3.modify _ _).objs[o]? = some ob
+      rw [modify_get_ne hne']; exact e3
+
+
+/-- the index and name under which a scope object is recorded as a declaration (types are not declarations) -/
+def declKey (v2 : Bool) (ob : GObj) : Option (Decl × Name) :=
+  match ob.kind with
+  | .typeName => none
+  | .func => some (.func, funcNameOf v2 ob.str)
+  | .var => some (.var, varNameOf v2 ob.str)
+  | .const => some (.const, varNameOf v2 ob.str)
+
+def declVal (ob : GObj) : Option Str := if ob.kind = .const then some ob.constVal else none
+
+theorem addObj_records {bt : List Builtin} (F : Facts) (v2 : Bool) (hwf : WellFormed F v2) (fuel : Nat) (u : U) (ob : GObj) (u' : U)
+    (h : Full bt F v2 u) (hf : addObj bt F v2 fuel u ob = some u') (d : Decl) (n : Name) (hk : declKey v2 ob = some (d, n)) :
+    Recorded F v2 u' d n ob.ty (declVal ob) := by
+  unfold addObj at hf
+  unfold declKey at hk
+  unfold declVal
+  cases hkind : ob.kind with
+  | typeName => simp [hkind] at hk
+  | func =>
+    simp only [hkind] at hf hk
+    simp only [Option.some.injEq, Prod.mk.injEq] at hk
+    obtain ⟨rfl, rfl⟩ := hk
+    exact addDecl_records F v2 hwf fuel u _ _ _ _ u' h hf
+  | var =>
+    simp only [hkind] at hf hk
+    simp only [Option.some.injEq, Prod.mk.injEq] at hk
+    obtain ⟨rfl, rfl⟩ := hk
+    exact addDecl_records F v2 hwf fuel u _ _ _ _ u' h hf
+  | const =>
+    simp only [hkind] at hf hk
+    simp only [Option.some.injEq, Prod.mk.injEq] at hk
+    obtain ⟨rfl, rfl⟩ := hk
+    exact addDecl_records F v2 hwf fuel u _ _ _ _ u' h hf
+
+theorem addObj_keeps_recorded {bt : List Builtin} (F : Facts) (v2 : Bool) (hwf : WellFormed F v2) (fuel : Nat) (u : U) (ob : GObj) (u' : U)
+    (h : Full bt F v2 u) (hinj : DeclInj u) (hf : addObj bt F v2 fuel u ob = some u')
+    {d : Decl} {n : Name} {ty : Nat} {cv : Option Str} (hne : declKey v2 ob ≠ some (d, n)) (hr : Recorded F v2 u d n ty cv) :
+    Recorded F v2 u' d n ty cv := by
+  unfold addObj at hf
+  unfold declKey at hne
+  cases hkind : ob.kind with
+  | typeName =>
+    simp only [hkind] at hf
+    cases hw : walk bt F v2 fuel u ob.ty none with
+    | none => simp [hw] at hf
+    | some p =>
+      simp only [hw, Option.map_some, Option.some.injEq] at hf
+      subst hf
+      exact walk_keeps_recorded F v2 hwf fuel u p.1 ob.ty p.2 none h.1 h.2 hw hr
+  | func =>
+    simp only [hkind] at hf hne
+    exact addDecl_keeps_recorded F v2 hwf fuel u _ _ _ _ u' h hinj hf (fun e => hne (by rw [e.1, e.2])) hr
+  | var =>
+    simp only [hkind] at hf hne
+    exact addDecl_keeps_recorded F v2 hwf fuel u _ _ _ _ u' h hinj hf (fun e => hne (by rw [e.1, e.2])) hr
+  | const =>
+    simp only [hkind] at hf hne
+    exact addDecl_keeps_recorded F v2 hwf fuel u _ _ _ _ u' h hinj hf (fun e => hne (by rw [e.1, e.2])) hr
+
+theorem addObjs_keeps_recorded {bt : List Builtin} (F : Facts) (v2 : Bool) (hwf : WellFormed F v2) (fuel : Nat) :
+    ∀ (obs : List GObj) (u u' : U), Full bt F v2 u → DeclInj u → addObjs bt F v2 fuel u obs = some u' →
+    ∀ {d : Decl} {n : Name} {ty : Nat} {cv : Option Str}, (∀ ob ∈ obs, declKey v2 ob ≠ some (d, n)) →
+      Recorded F v2 u d n ty cv → Recorded F v2 u' d n ty cv := by
+  intro obs
+  induction obs with
+  | nil => intro u u' _ _ hf d n ty cv _ hr; simp only [addObjs, Option.some.injEq] at hf; subst hf; exact hr
+  | cons x rest ih =>
+    intro u u' h hinj hf d n ty cv hne hr
+    simp only [addObjs] at hf
+    cases ha : addObj bt F v2 fuel u x with
+    | none => simp [ha] at hf
+    | some u1 =>
+      simp only [ha] at hf
+      exact ih u1 u' (addObj_full F v2 hwf fuel u x u1 h ha) (addObj_declInj F v2 fuel u x u1 h.1 hinj ha) hf
+        (fun ob hob => hne ob (List.mem_cons_of_mem _ hob))
+        (addObj_keeps_recorded F v2 hwf fuel u x u1 h hinj ha (hne x List.mem_cons_self) hr)
+
+/-- **scan_records_every_declaration**: after the objects of a package scope have been added – function, variable and
+constant names being distinct, as in any Go package – every one of them is recorded: registered under its name in its
+index as a `DeclarationOf` object over the object of its Go type, a constant with its value -/
+theorem addObjs_records {bt : List Builtin} (F : Facts) (v2 : Bool) (hwf : WellFormed F v2) (fuel : Nat) :
+    ∀ (obs : List GObj) (u u' : U), Full bt F v2 u → DeclInj u → (obs.filterMap (declKey v2)).Nodup →
+    addObjs bt F v2 fuel u obs = some u' →
+    ∀ ob ∈ obs, ∀ (d : Decl) (n : Name), declKey v2 ob = some (d, n) → Recorded F v2 u' d n ob.ty (declVal ob) := by
+  intro obs
+  induction obs with
+  | nil => intro u u' _ _ _ _ ob hob; cases hob
+  | cons x rest ih =>
+    intro u u' h hinj hnd hf ob hob d n hk
+    simp only [addObjs] at hf
+    cases ha : addObj bt F v2 fuel u x with
+    | none => simp [ha] at hf
+    | some u1 =>
+      simp only [ha] at hf
+      have h1 := addObj_full F v2 hwf fuel u x u1 h ha
+      have hinj1 := addObj_declInj F v2 fuel u x u1 h.1 hinj ha
+      have hnd' : (rest.filterMap (declKey v2)).Nodup ∧ (∀ k, declKey v2 x = some k → k ∉ rest.filterMap (declKey v2)) := by
+        cases hx : declKey v2 x with
+        | none => simp only [List.filterMap_cons, hx] at hnd; exact ⟨hnd, fun k hk => by cases hk⟩
+        | some k0 =>
+          simp only [List.filterMap_cons, hx, List.nodup_cons] at hnd
+          exact ⟨hnd.2, fun k hk => by cases hk; exact hnd.1⟩
+      rcases List.mem_cons.mp hob with rfl | hrest
+      · have hr := addObj_records F v2 hwf fuel u ob u1 h ha d n hk
+        refine addObjs_keeps_recorded F v2 hwf fuel rest u1 u' h1 hinj1 hf (fun y hy e => ?_) hr
+        exact hnd'.2 (d, n) hk (List.mem_filterMap.mpr ⟨y, hy, e⟩)
+      · exact ih u1 u' h1 hinj1 hnd'.1 hf ob hrest d n hk
+
+theorem declInj_empty : DeclInj {} := by
+  intro d1 d2 n1 n2 o h1 _
+  cases d1 <;> simp [declIdx, AL.lookup] at h1
+
+
+theorem Recorded.same {F : Facts} {v2 : Bool} {u u' : U} {d : Decl} {n : Name} {ty : Nat} {cv : Option Str}
+    (ho : u'.objs = u.objs) (ht : u'.types = u.types) (hf : u'.funcs = u.funcs) (hv : u'.vars = u.vars) (hc : u'.consts = u.consts)
+    (h : Recorded F v2 u d n ty cv) : Recorded F v2 u' d n ty cv := by
+  have hg : Grows u u' := ⟨fun o ob hob => ⟨ob, by rw [ho]; exact hob, rfl, fun _ => rfl⟩, fun n o hl => by rw [ht]; exact hl⟩
+  refine h.of_step hg (fun o ho' => ?_) (fun o ob _ hob => by rw [ho]; exact hob)
+  cases d
+  · show AL.lookup n u'.funcs = some o; rw [hf]; exact ho'
+  · show AL.lookup n u'.vars = some o; rw [hv]; exact ho'
+  · show AL.lookup n u'.consts = some o; rw [hc]; exact ho'
+
+theorem package_decls (u : U) (p : Str) : (u.package p).funcs = u.funcs ∧ (u.package p).vars = u.vars ∧ (u.package p).consts = u.consts :=
+  ⟨(package_side u p).funcs, (package_side u p).vars, (package_side u p).consts⟩
+
+theorem addImports_decls (u : U) (p : Str) (imps : List Str) :
+    (u.addImports p imps).funcs = u.funcs ∧ (u.addImports p imps).vars = u.vars ∧ (u.addImports p imps).consts = u.consts := by
+  unfold U.addImports
+  have key : ∀ (l : List Str) (x : U), (l.foldl (fun u i => u.package i) x).funcs = x.funcs ∧
+      (l.foldl (fun u i => u.package i) x).vars = x.vars ∧ (l.foldl (fun u i => u.package i) x).consts = x.consts := by
+    intro l
+    induction l with
+    | nil => intro x; exact ⟨rfl, rfl, rfl⟩
+    | cons i rest ih =>
+      intro x
+      simp only [List.foldl_cons]
+      obtain ⟨a, b, c⟩ := ih (x.package i)
+      obtain ⟨a', b', c'⟩ := package_decls x i
+      exact ⟨a.trans a', b.trans b', c.trans c'⟩
+  obtain ⟨a, b, c⟩ := key imps (u.package p)
+  obtain ⟨a', b', c'⟩ := package_decls u p
+  exact ⟨a.trans a', b.trans b', c.trans c'⟩
+
+theorem declInj_of_idx {u u' : U} (h : ∀ d, declIdx u' d = declIdx u d) (hi : DeclInj u) : DeclInj u' := by
+  intro d1 d2 n1 n2 o h1 h2
+  rw [h] at h1 h2
+  exact hi d1 d2 n1 n2 o h1 h2
+
+/-- **requested_package_declarations_complete** (v1 `findTypesIn`): after the scan of a package every function, variable and
+constant of its scope is recorded -/
+theorem scanPkg_records_decls {bt : List Builtin} (F : Facts) (v2 : Bool) (hwf : WellFormed F v2) (fuel : Nat) (u : U) (p : GPkg) (u' : U)
+    (h : Full bt F v2 u) (hinj : DeclInj u) (hnd : (p.scope.filterMap (declKey v2)).Nodup)
+    (hf : scanPkg bt F v2 fuel u p = some u') :
+    ∀ ob ∈ p.scope, ∀ (d : Decl) (n : Name), declKey v2 ob = some (d, n) → Recorded F v2 u' d n ob.ty (declVal ob) := by
+  intro ob hob d n hk
+  unfold scanPkg at hf
+  obtain ⟨a, b, c, dd⟩ := package_objs u p.path
+  have h1 := full_of_same (u' := (u.package p.path).setPkg p.path (fun r => { r with name := p.name })) a b c dd h
+  obtain ⟨pf, pv, pc⟩ := package_decls u p.path
+  have hinj1 : DeclInj ((u.package p.path).setPkg p.path (fun r => { r with name := p.name })) :=
+    declInj_of_idx (u := u) (fun d => by cases d; exact pf; exact pv; exact pc) hinj
+  cases ha : addObjs bt F v2 fuel ((u.package p.path).setPkg p.path (fun r => { r with name := p.name })) p.scope with
+  | none => simp [ha] at hf
+  | some u2 =>
+    simp only [ha, Option.some.injEq] at hf
+    subst hf
+    have hr := addObjs_records F v2 hwf fuel p.scope _ u2 h1 hinj1 hnd ha ob hob d n hk
+    obtain ⟨a', b', _, _⟩ := addImports_same u2 p.path (p.imports.mergeSort Str.le)
+    obtain ⟨f', v', c'⟩ := addImports_decls u2 p.path (p.imports.mergeSort Str.le)
+    exact hr.same a' b' f' v' c'
+
 end Gengo.WalkSide
